@@ -215,7 +215,12 @@ def exec_stmt(ctx, st, env, cond):
                     a = a if a is not None else ("undef", k)
                     b = b if b is not None else ("undef", k)
                 merged[k] = merge_phi(c, a, b)
-            outs.append(Outcome("fall", cond, None, merged))
+            c1, c2 = f1[0].cond, f2[0].cond
+            if c1 == T.land(cond, c) and c2 == T.land(cond, T.lnot(c)):
+                mc = cond
+            else:
+                mc = ("or", c1, c2)      # some sub-branch left by return/raise: keep the exact path condition
+            outs.append(Outcome("fall", mc, None, merged))
         elif f1:
             outs.append(Outcome("fall", f1[0].cond, None, f1[0].env))
         elif f2:
